@@ -181,7 +181,9 @@ HubConvertBSt(w, amt, user) ==
   LET h      == sy.h
       charge == DecLt(h.rateB, par.thr)
       gap    == (sb.v + w.batch.reqB) - h.bondB
-      fee    == IF charge THEN Min(MulDec(amt, par.fee), gap) ELSE 0      \* AllGapOnConvert: the whole gap, although amt leaves the pool
+      \* the converted tokens leave the pool: only the gap attributable to the remaining claims is recovered
+      cap    == IF amt > gap /\ h.bondB > 0 THEN MulDivFloor(gap, (sb.v + w.batch.reqB) - amt, h.bondB) ELSE gap
+      fee    == IF charge THEN Min(MulDec(amt, par.fee), cap) ELSE 0
       awf    == amt - fee
       den    == MulDec(awf, h.rateB)
       mint   == DivDec(den, h.rateSt)
@@ -219,13 +221,13 @@ ReleaseGroup(hist, lastProc, ht) ==
   IN G(lastProc + 1)
 
 \* calculate_new_withdraw_rate(amount, withdraw_rate, total_unbonded, slashed = (|x|, negative?))
-\* AbsInsteadOfClamp: SignedInt::from_subtraction(unb, sb).0 is the absolute value of unb - sb
+\* (a batch whose slashed share exceeds its unbonded amount is credited zero)
 NewWithdrawRate(amt, rate, total, slashed, neg) ==
   LET unb == MulDec(amt, rate)
       wgt == IF total # 0 THEN DecFromRatio(unb, total) ELSE Zero
       sb0 == MulDec(slashed, wgt)
       act == IF neg THEN unb + (IF sb0 > 1 THEN sb0 - 1 ELSE 0)
-             ELSE LET sb == IF slashed # 0 THEN sb0 + 1 ELSE sb0 IN Abs(unb - sb)
+             ELSE LET sb == IF slashed # 0 THEN sb0 + 1 ELSE sb0 IN IF unb >= sb THEN unb - sb ELSE 0
   IN IF amt # 0 THEN DecFromRatio(act, amt) ELSE rate
 
 ReleasedHistory(hist, G, arrived) ==
